@@ -121,6 +121,7 @@ func newEngineRoutes(cfg srvCfg, routes func(*route.Engine), mw ...app.HandlerFu
 	opt.DisableKeepalive = cfg.disableKeepalive
 	opt.StreamRequestBody = cfg.stream
 	opt.DisablePrintRoute = true
+	opt.H2C = h2cOn // protocol sniffing in Engine.Serve (set by op nfh2c, c03p.go)
 	if cfg.maxBody > 0 {
 		opt.MaxRequestBodySize = cfg.maxBody
 	}
